@@ -129,6 +129,12 @@ func (rd *reader) ready() bool {
 func (rd *reader) Read(p []byte) (int, error) {
 	if len(rd.cur) == 0 {
 		if rd.ended {
+			// a reader that has failed keeps failing (a dead pty); asking it again is a step of the
+			// execution like any other, so that a parser that keeps asking runs into the step limit
+			vsched.Yield("read-after-end")
+			if rd.sc.End == endErr {
+				return 0, errors.New("read failed")
+			}
 			return 0, io.EOF
 		}
 		rd.waiting = true
@@ -629,9 +635,18 @@ func depthScripts(each func(sc script)) {
 
 // ---- exploration ------------------------------------------------------------------------------------------------------------
 
+// a change that makes many executions fail (and run to the step limit) must not make the check run for
+// hours: a script is abandoned after 50 violating executions, the whole run after 3000 (reported as not exhaustive)
+var violatingExecutions int
+
 func exploreScript(sc script, bound int, budget int64) {
+	if violatingExecutions >= 3000 {
+		r.Count("scripts_skipped_after_violations", 1)
+		return
+	}
 	lists, outside := allowed(&sc)
 	var outcomes = map[string]bool{}
+	inScript := 0
 	n, capped := vsched.Explore(bound, budget, 0, 1, func(prefix []int) *vsched.Result {
 		res, o := execute(&sc, prefix)
 		res.Log = nil
@@ -643,6 +658,11 @@ func exploreScript(sc script, bound int, budget int64) {
 		r.Count("points", int64(len(res.Trace)))
 		outcomes[strings.Join(o.items, "|")] = true
 		if sig, what := check(&sc, lists, outside, res, o); sig != "" {
+			inScript++
+			violatingExecutions++
+			if inScript >= 50 || violatingExecutions >= 3000 {
+				vsched.Abort = true
+			}
 			var sched []int
 			for _, p := range res.Trace {
 				sched = append(sched, p.Chosen)
@@ -723,6 +743,9 @@ func main() {
 	r.Spawn(16, "breadth", 0)
 	r.Spawn(16, "depth", 0)
 	ex := r.Get("executions")
+	if n := r.Get("scripts_skipped_after_violations"); n > 0 {
+		r.CapHit("%d scripts were skipped after 3000 violating executions in a worker", n)
+	}
 	r.Finish(explore.Coverage{
 		States: -1, Transitions: r.Get("points"), Traces: ex, Evaluations: ex,
 		Rule: fmt.Sprintf("stateless exploration of thread schedules of the real ansi.Parser under the controlled scheduler (scheduling points: every channel operation, select, close, mutex operation, thread start, timer firing, reader wait). Breadth: every string of up to %d symbols over a 12-symbol alphabet, as one chunk and cut in two at every position with short / boundary / long arrival gaps, ending in EOF or a read error, all schedules without preemption (non-preemptive switches are free); byte-level chunkings of multi-byte input with <=1 preemption; states: 27 prefixes that leave the automaton in each of its states (incl. every string state with and without content, and just after ST / BEL / CAN) + ESC + silence of each length + 7 continuations, <=1 preemption; ownership: every sequence of up to %d complete control sequences out of 19 (each dispatch path that hands storage to the consumer) with a consumer that retains everything or hands back one late, <=1 preemption. Depth: 14 input bodies x end kinds x consumer modes (hand back at once / retain everything / hand back one late) x Close from a second thread with a reader that returns afterwards, all schedules with <=%d deviations (preemption, or timer fired while a thread could run). Oracle per execution: no panic, no hang, no goroutine blocked at the end, exactly one EOF marker as last item, channel closed, WaitClose returns, retained sequences unchanged, item list equal to (prefix of, with Close) a list admitted by the reference automaton for the gap pattern. distinct = (script, bound) pairs", breadthN, r.Pick(3, 4), depthBound),
